@@ -171,8 +171,8 @@ def materialize_data(data, form, layout):
         import astropy.units as u
         from astropy.nddata import NDData
         return NDData(a, unit=u.adu if form == 'nddata_unit' else None)
-    if form == 'list':
-        return a.tolist()
+    if form == 'list' and a.dtype in (np.dtype('float64'), np.dtype('int64')):
+        return a.tolist()          # (a nested list cannot carry any other dtype)
     return a
 
 
